@@ -201,6 +201,16 @@ def ev_iers(row, rec):
             bad.append((nme, float(got), float(exp)))
     if (t.from_datum, t.to_datum, t.ref_epoch) != ('ITRFxx', 'ITRFyy', ep):
         bad.append(('labels/epoch', t.from_datum, t.to_datum, str(t.ref_epoch)))
+    # reversal keeps the reference epoch in every form the documentation allows (a date, YYYY.DOY, a decimal year, an integer year, 0)
+    for ep2 in (ep, 2010.001, 2015.5, 2010, 0, datetime.date(1988, 3, 1)):
+        st2, t2 = rec.call(gc.iers2trans, 'ITRFxx', 'ITRFyy', ep2, *row)
+        if st2 != 'ok':
+            bad.append(('iers2trans raised for reference epoch %r' % (ep2,), repr(t2)))
+            continue
+        st3, n2 = rec.call(lambda: -t2)
+        if st3 != 'ok' or n2.ref_epoch != ep2 or type(n2.ref_epoch) is not type(ep2) or (n2.from_datum, n2.to_datum) != ('ITRFyy', 'ITRFxx') \
+                or any(fr(getattr(n2, f)) != -fr(getattr(t2, f)) for f in names):
+            bad.append(('reverse of a set with reference epoch %r' % (ep2,), repr(getattr(n2, 'ref_epoch', n2))))
     rec.outcome('ok' if not bad else 'bad')
     rec.sample({'iers_row': row})
     if bad:
@@ -217,6 +227,9 @@ def gen_algebra(tier, seed):
 def ev_algebra(name, rec):
     depth = 3
     eps = epochs()
+    # ... and epochs that are NOT reference epochs of the catalogue: days, months and just under / over a year away from this
+    # set's own reference epoch, before and after (depth 1 only: they multiply the reachable set)
+    near = [t_ + datetime.timedelta(days=d) for t_ in [catalogue()[name].ref_epoch] for d in (-366, -365, -364, -100, -1, 1, 59, 200, 364, 365, 366, 800)]
     # a private deep copy so that the shared constant is never the object being explored
     t0 = catalogue()[name]
     init = gc.Transformation(t0.from_datum, t0.to_datum, t0.ref_epoch, *[getattr(t0, f) for f in FIELDS + RATES],
@@ -228,7 +241,7 @@ def ev_algebra(name, rec):
         t, exact, d = frontier.pop(0)
         if d >= depth:
             continue
-        ops = [('neg', None)] + [('add', e) for e in eps]
+        ops = [('neg', None)] + [('add', e) for e in eps] + ([('add', e) for e in near] if d == 0 else [])
         for op, e in ops:
             if op == 'neg':
                 st, u = rec.call(lambda: -t)
